@@ -442,6 +442,15 @@ func (sc *SpecCtx) call(e *SExpr) (*Val, error) {
 		default:
 			return &Val{T: g.ghostTerm(sc.cur, "$count:"+sel), Ty: intType}, nil
 		}
+	case "result_of":
+		if len(e.Args) != 2 || e.Args[1].Kind != SNum {
+			return nil, fmt.Errorf("result_of(selector, index)")
+		}
+		gn := fmt.Sprintf("$res:%s:%s", selName(e.Args[0]), e.Args[1].Name)
+		if _, ok := g.ghostSorts[gn]; !ok {
+			return nil, fmt.Errorf("result_of: no call matching %s seen before this point", selName(e.Args[0]))
+		}
+		return &Val{T: g.ghostTerm(sc.cur, gn)}, nil
 	case "fresh":
 		x, err := argv(0)
 		if err != nil {
@@ -479,6 +488,14 @@ func (sc *SpecCtx) call(e *SExpr) (*Val, error) {
 			return nil, err
 		}
 		return &Val{T: and(sx("distinct", x.T, "0"), eq(sx("dyntype", x.T), intLit(int64(id)))), Ty: boolType}, nil
+	}
+	if d, ok := g.eng.defs[e.Name]; ok && d.GhostMap != "" {
+		k, err := argv(0)
+		if err != nil {
+			return nil, err
+		}
+		c := g.comp("ghost."+d.Name, d.GhostMap)
+		return &Val{T: sel(g.heapTerm(sc.cur, c.Name), k.T)}, nil
 	}
 	if d, ok := g.eng.defs[e.Name]; ok {
 		if len(d.Params) != len(e.Args) {
@@ -566,6 +583,14 @@ func (sc *SpecCtx) lvalTargets(e *SExpr) ([]frameTarget, error) {
 		}
 		return nil, fmt.Errorf("modifies: cannot index %s", typeKey(x.Ty))
 	case SCall:
+		if d, ok := g.eng.defs[e.Name]; ok && d.GhostMap != "" && len(e.Args) == 1 {
+			k, err := sc.eval(e.Args[0])
+			if err != nil {
+				return nil, err
+			}
+			c := g.comp("ghost."+d.Name, d.GhostMap)
+			return []frameTarget{{Comp: c.Name, Ref: k.T}}, nil
+		}
 		if e.Name == "all" && len(e.Args) == 1 {
 			// all(p): every field of the struct p points to
 			x, err := sc.eval(e.Args[0])
